@@ -311,6 +311,44 @@ func Pair(t *rapid.T, c core.Ctx, op string) (x, y core.Dec) {
 	}
 	switch op {
 	case "add", "sub":
+		if Pick(t, 12, "borrow") == 1 {
+			// A power of ten minus (or plus) an operand whose leading digit sits at, just above or
+			// just below the first discarded place: the subtraction borrows through the whole
+			// coefficient, the result is one digit shorter, and the rounding is decided by the
+			// far operand's leading digits. That operand has 1..40 digits, or more than a
+			// thousand (an alignment gap beyond any table or shortcut threshold).
+			p := int64(c.P)
+			z := int64(rapid.IntRange(0, int(c.P)).Draw(t, "bz"))
+			hiExp := int64(Exponent(t, c, z+1, "bhe"))
+			x = core.Dec{Coeff: "1" + strings.Repeat("0", int(z)), Exp: int32(hiExp), Neg: rapid.Bool().Draw(t, "bxneg")}
+			hiAdj := hiExp + z
+			n := rapid.IntRange(1, 40).Draw(t, "bln")
+			if Pick(t, 3, "blong") == 0 {
+				n = rapid.IntRange(1001, 1400).Draw(t, "blnl")
+			}
+			y = core.Dec{Coeff: DigitsN(t, n, Pick(t, 10, "bys"), "by")}
+			if y.Coeff == "0" {
+				y.Coeff = "6"
+			}
+			loAdj := hiAdj - p - int64(rapid.IntRange(-1, 3).Draw(t, "bj"))
+			ye := loAdj - int64(len(y.Coeff)) + 1
+			if ye < -Limit {
+				ye = -Limit
+			}
+			y.Exp = int32(ye)
+			// unlike effective signs most of the time
+			y.Neg = x.Neg == (op == "sub")
+			if Pick(t, 4, "bsame") == 0 {
+				y.Neg = !y.Neg
+			}
+			if rapid.Bool().Draw(t, "bswap") {
+				x, y = y, x
+				if op == "sub" {
+					x.Neg, y.Neg = !x.Neg, !y.Neg
+				}
+			}
+			return x, y
+		}
 		// exact sum T = x (+/-) y
 		T := Finite(t, c, "T")
 		if Pick(t, 10, "cancel") == 0 {
